@@ -39,6 +39,7 @@ THEOREMS = [
     "Ural.Props.C09.match_url_of_parts",
     "Ural.Props.C09.match_url_string_spec",
     "Ural.Props.C09.match_url_invariance",
+    "Ural.Props.C09.match_url_nfkc_rejected",
 ]
 TABLE_OBLIGATIONS = []
 RULE = (
